@@ -31,18 +31,20 @@ def anchors():
 def run(pid, tier, seed, jobs, scratch):
     mod = importlib.import_module("vlib.checks." + pid.lower())
     env = core.worker_env(guard=True, hashseed=getattr(mod, "HASHSEED", "0"))
-    env.update(VERIF_TIER=tier, VERIF_SEED=str(seed), VERIF_SCRATCH=scratch, VERIF_REACH="1")
     rc_file = os.path.join(scratch, "coveragerc")
+    env.update(VERIF_TIER=tier, VERIF_SEED=str(seed), VERIF_SCRATCH=scratch, COVERAGE_PROCESS_START=rc_file)
     with open(rc_file, "w") as fh:
         fh.write(f"[run]\nbranch = True\nparallel = True\ndata_file = {scratch}/cov/{pid}\n"
-                 f"include = {core.REPO}/suit_generator/*,{core.REPO}/ncs/*\n")
+                 f"include = {core.REPO}/*\nomit = {core.REPO}/tests/*\n")
     os.makedirs(os.path.join(scratch, "cov"), exist_ok=True)
     nsh = mod.shards(tier)
 
     def go(i):
         out = os.path.join(scratch, f"{pid}-{i}.json")
-        p = subprocess.run([core.PY, "-B", "-m", "coverage", "run", "--rcfile", rc_file, "-m", "vlib.worker", pid, "shard",
-                            str(i), str(nsh), out], env=env, cwd=scratch, capture_output=True, timeout=3600)
+        # coverage starts in vlib/__init__.py (COVERAGE_PROCESS_START), so that the interpreters a worker spawns with
+        # vlib on their path (C18's fresh-interpreter references and histories) are measured as well
+        p = subprocess.run([core.PY, "-B", "-m", "vlib.worker", pid, "shard", str(i), str(nsh), out], env=env,
+                           cwd=scratch, capture_output=True, timeout=3600)
         return p.returncode
 
     with cf.ThreadPoolExecutor(max_workers=jobs) as ex:
